@@ -155,7 +155,7 @@ _unused: HashMismatch
             && final(self).archive.objects() == old(self).archive.objects().insert(uri, old(data).content_spec()),
         final(self).notify == old(self).notify, final(self).collector == old(self).collector,
         final(self).archive.path_spec() == old(self).archive.path_spec(),
-//@ closure 1
+//@ closure map_err 1 optional
 |err: PublishError| -> (r: SnapshotError)
     // C41 + C25: only a local archive error becomes RunFailed; a duplicate URI is DuplicateObject
     ensures err is AlreadyExists ==> r is DuplicateObject, r is RunFailed <==> err is Archive
@@ -206,9 +206,9 @@ _unused: HashMismatch
         final(self).archive.state() == old(self).archive.state(),
 //@ entry
         broadcast use axiom_rsync_uri_key_model;
-//@ closure 1
+//@ closure map_err 1 optional
 |err: AccessError| -> (r: DeltaError) ensures true
-//@ closure 2
+//@ closure map_err 2 optional
 |err: PublishError| -> (r: DeltaError) ensures true
 //@ fn DeltaUpdate::withdraw
 //@ spec
@@ -222,7 +222,7 @@ _unused: HashMismatch
         final(self).archive.state() == old(self).archive.state(),
 //@ entry
         broadcast use axiom_rsync_uri_key_model;
-//@ closure 1
+//@ closure map_err 1 optional
 |err: AccessError| -> (r: DeltaError) ensures true
 //@ fn RepositoryUpdate::calc_deltas
 //@ spec
@@ -238,7 +238,7 @@ _unused: HashMismatch
         // frame: only the log book is written
         final(self).collector == old(self).collector, final(self).path == old(self).path,
         final(self).rpki_notify == old(self).rpki_notify, final(self).metrics == old(self).metrics,
-//@ closure 1
+//@ closure map 1 optional
 |delta: &DeltaInfo| -> (r: u64) ensures r == delta.serial_spec()
 //@ loop 1
             invariant
@@ -348,7 +348,7 @@ _unused: HashMismatch
         res is Err ==> exists|p: PathBuf| #[trigger] local_archive_fault(p),
         final(self).collector == old(self).collector, final(self).path == old(self).path,
         final(self).rpki_notify == old(self).rpki_notify,
-//@ closure 1
+//@ closure map 1 optional
 |x: &(RrdpArchive, RepositoryState)| -> (r: &RepositoryState) ensures r == &x.1
 //@ fn RepositoryUpdate::try_update
 //@ spec
